@@ -4,6 +4,7 @@ package main
 
 import (
 	"bytes"
+	"encoding/json"
 	"go/ast"
 	"crypto/sha256"
 	"encoding/hex"
@@ -127,8 +128,22 @@ type job struct {
 	variants []string
 }
 
+var currentProp string
+
 func (d *Driver) Run() int {
 	d.start = time.Now()
+	currentProp = d.Prop
+	if d.Prop != "" {
+		propTags[d.Prop] = true
+		if b, err := os.ReadFile(filepath.Join(d.Verif, "aliases.json")); err == nil {
+			var al map[string][]string
+			if json.Unmarshal(b, &al) == nil {
+				for _, t := range al[d.Prop] {
+					propTags[t] = true
+				}
+			}
+		}
+	}
 	if d.Work == "" {
 		d.Work = filepath.Join(d.Verif, ".work", fmt.Sprintf("run%d", os.Getpid()))
 	}
@@ -162,6 +177,9 @@ func (d *Driver) Run() int {
 			}
 			jobs = append(jobs, js...)
 		}
+	}
+	if (d.Prop == "" || d.Prop == "C04") && strings.Contains(","+d.Targets+",", ",rt,") && d.OnlyFunc == "" && d.OnlyVariant == "" {
+		d.extraC04(loader, filepath.Join(d.Work, "rt"))
 	}
 	// generate VCs
 	for _, j := range jobs {
@@ -211,7 +229,24 @@ func (d *Driver) Run() int {
 	return d.report()
 }
 
+// propTags: the tags that count for the property being checked (C10 is decided by discharging the
+// functional obligations of the other runtime properties on BOTH the optimized and the standard
+// instantiations, see aliases.json).
+var propTags = map[string]bool{}
+
+func matchesProp(tags []string) bool {
+	for _, t := range tags {
+		if propTags[t] {
+			return true
+		}
+	}
+	return false
+}
+
 func hasTag(tags []string, p string) bool {
+	if len(propTags) > 0 && p != "" && propTags[p] && p == currentProp {
+		return matchesProp(tags)
+	}
 	for _, t := range tags {
 		if t == p {
 			return true
@@ -293,7 +328,11 @@ func (d *Driver) rtJobs(loader *Loader) ([]*job, error) {
 	for _, v := range variants {
 		pkg, err := loader.LoadDir(filepath.Join(out, v), "verif/rt/"+v, "rt["+v+"]", nil)
 		if err != nil {
-			return nil, fmt.Errorf("variant %s does not type-check: %v", v, err)
+			// the instantiation does not compile: none of its obligations can be generated (they are
+			// then reported as vanished against the inventory; C04 reports the type error itself)
+			d.notProved = append(d.notProved, fmt.Sprintf("rt[%s]: instantiation does not type-check: %v", v, err))
+			fmt.Fprintf(os.Stderr, "NOT-PROVED rt[%s]: instantiation does not type-check: %v\n", v, err)
+			continue
 		}
 		pkg.Flags = variantFlags(v)
 		cs := NewContracts()
@@ -464,6 +503,9 @@ func (d *Driver) solveAll() {
 		}()
 	}
 	for _, q := range d.queries {
+		if q.Result != "" {
+			continue // decided outside the solver race (exhaustive checks, excused lemma)
+		}
 		ch <- q
 	}
 	close(ch)
@@ -473,7 +515,7 @@ func (d *Driver) solveAll() {
 	// depend on it)
 	var again []*Query
 	for _, q := range d.queries {
-		if !q.IsCover && q.Result != "unsat" {
+		if !q.IsCover && q.Result != "unsat" && q.Solver != "exhaustive" && q.Kind != "lemma" {
 			again = append(again, q)
 		}
 	}
